@@ -191,7 +191,9 @@ def flp : P String := do
     -- a gap between 1e-7 and 1e-5 is then reported as ill-conditioned, not as a verdict
     let tiny := (C ++ b).any (fun f => f.vals.any (fun q => q != 0 && decide (absQ q < 1 / 10^5)))
     let gap := phiW - opt
-    if tiny && decide (gap > tol7 * (1 + absQ opt)) && decide (gap ≤ (1 / 10^5) * (1 + absQ opt)) then return "skip ill_conditioned" else
+    -- … or the (certified or returned) weights are of order > 1e6, where a 1e-7 absolute tolerance on φ is below double precision
+    let blown := decide (maxAbs w > 10^6) || decide (maxAbs x > 10^6)
+    if tiny && decide (gap > tol7 * (1 + absQ opt)) && (decide (gap ≤ (1 / 10^5) * (1 + absQ opt)) || blown) then return "skip ill_conditioned" else
     let v := v.failIf (decide (gap > tol7 * (1 + absQ opt))) s!"FactoredLP {kind} maxerr={ratStr phiW} flat_optimum={ratStr opt}"
     return v.render
 
